@@ -11,7 +11,7 @@ for d in seeded/*/; do
   if ! git -C /repo diff --quiet; then echo "/repo dirty"; exit 9; fi
   if git -C /repo apply --check /verif/$d/patch.diff 2>/dev/null; then
     git -C /repo apply /verif/$d/patch.diff
-    ./check $PID --tier quick > .scratch/matrix_${SID}.out 2>&1; RC=$?
+    SYMX_EVIDENCE_DIR=/var/tmp/seed_ev ./check $PID --tier quick > .scratch/matrix_${SID}.out 2>&1; RC=$?
     git -C /repo checkout -- .
     V=$(grep -m1 "^VIOLATION" .scratch/matrix_${SID}.out | sed -e 's/.*json  //' | cut -c1-160)
     printf "%s\t%s\tyes\t%s\t%s\n" $SID $PID $RC "$V" >> $OUT
